@@ -30,7 +30,15 @@ if os.path.exists(rp):
         f = ln.rstrip("\n").split("\t")
         if len(f) >= 5:
             seen[f[0]] = f
+NOTES = {
+    "c04-index-lt": "equivalent: a chain with equal patch indices is refused by the gap check as well",
+    "c04-skip-middle-hash": "equivalent for the property: the hash of a middle container is also verified through its successor's link",
+    "c09-ih5-require-group-over-dataset": "differs only in the exception type (ValueError instead of TypeError); the properties speak of success or failure. An earlier 'caught' was an artefact of the harness, since removed",
+    "c12-by-alias-default": "not admissible: breaks one of the 66 pinned tests",
+    "c12-exclude-none-default": "not admissible: breaks one of the 66 pinned tests",
+}
 for k in sorted(seen):
     f = seen[k]
-    out.append(f"| {f[0]} | {f[1]} | {f[2]} | {'**caught**' if f[3]=='rc=1' else ('missed' if f[3]=='rc=0' else f[3])} ({f[4]} classes) |")
+    note = f" – {NOTES[f[0]]}" if f[0] in NOTES and f[3] != "rc=1" else ""
+    out.append(f"| {f[0]} | {f[1]} | {f[2]} | {'**caught**' if f[3]=='rc=1' else ('not caught' if f[3]=='rc=0' else f[3])} ({f[4]} classes){note} |")
 print("\n".join(out))
